@@ -166,6 +166,8 @@ typedef Geometry::ConformalMesh<Shape::Simplex<2>, 2, Q> MeshS2;
 typedef Geometry::ConformalMesh<Shape::Simplex<3>, 3, Q> MeshS3;
 typedef Geometry::ConformalMesh<Shape::Hypercube<2>, 2, double> MeshH2D;   // "printed precision" clause at double
 void run_mesh_h2d(Geometry::MeshFileReader&, std::ostream&);
+typedef Geometry::ConformalMesh<Shape::Hypercube<3>, 3, double> MeshH3D;   // 3D charts (Extrude needs sin/cos) at double
+void run_mesh_h3d(Geometry::MeshFileReader&, std::ostream&);
 void run_mesh_h1(Geometry::MeshFileReader&, std::ostream&);
 void run_mesh_h2(Geometry::MeshFileReader&, std::ostream&);
 void run_mesh_h3(Geometry::MeshFileReader&, std::ostream&);
